@@ -160,7 +160,7 @@ func c11Run(ops []string, seed int) (lines []string, viols []Violation, info map
 				viol("C11/transfer-failed", "data did not arrive over a connection that was handed out as working")
 			}
 			add("sess.transfer")
-		case "close-client", "close-server", "relay-failure", "relay-outage":
+		case "close-client", "close-server", "relay-failure", "relay-outage", "del-fails":
 			switch op {
 			case "close-client":
 				if !closeTimed(cli.Mailbox) {
@@ -197,6 +197,19 @@ func c11Run(ops []string, seed int) (lines []string, viols []Violation, info map
 					return
 				}
 				add("sess.closed c")
+			case "del-fails":
+				// the relay answers the next mailbox deletion (the server deletes its old mailboxes when
+				// it moves to another rendezvous) with a transient error; then the connection is closed
+				relay.mu.Lock()
+				relay.FailDel = 1
+				relay.mu.Unlock()
+				if !closeTimed(cli.Mailbox) || !closeTimed(srv.Mailbox) {
+					viol("C11/close-does-not-return", "Close had not returned after 20 s")
+					abandon = true
+					return
+				}
+				add("sess.closed c")
+				add("sess.closed s")
 			case "relay-outage":
 				// the relay is unreachable while both sides give up their connection: every stream
 				// operation, closing the streams included, fails; then it comes back
@@ -350,7 +363,7 @@ func waitDone(c net.Conn, d time.Duration) {
 func TestC11(t *testing.T) {
 	r := NewRecorder(t, "C11")
 	defer r.Close(t)
-	alphabet := []string{"transfer", "close-client", "close-server", "relay-failure", "early-accept", "early-dial", "relay-outage"}
+	alphabet := []string{"transfer", "close-client", "close-server", "relay-failure", "early-accept", "early-dial", "relay-outage", "del-fails"}
 	var seqs [][]string
 	// all sequences of length 1 and 2, plus seeded longer ones
 	for _, a := range alphabet {
